@@ -25,6 +25,25 @@ type tbl struct {
 	global   func(g *ssa.Global) absint.Value
 	dynamic  func(ip *absint.Interp, fn absint.Value, args []absint.Value) (absint.Value, bool)
 	errN     int
+	syncMaps map[absint.Value]*syncMapModel // sync.Map objects by receiver identity
+}
+
+type syncMapModel struct {
+	keys []string
+	k    map[string]absint.Value
+	v    map[string]absint.Value
+}
+
+func (t *tbl) syncMap(recv absint.Value) *syncMapModel {
+	if t.syncMaps == nil {
+		t.syncMaps = map[absint.Value]*syncMapModel{}
+	}
+	m := t.syncMaps[recv]
+	if m == nil {
+		m = &syncMapModel{k: map[string]absint.Value{}, v: map[string]absint.Value{}}
+		t.syncMaps[recv] = m
+	}
+	return m
 }
 
 func newTbl(c *core.Ctx) *tbl {
@@ -94,6 +113,48 @@ func (t *tbl) Call(ip *absint.Interp, site ssa.CallInstruction, args []absint.Va
 		return nil, true // synchronisation has no effect on a sequential schedule
 	case full == "fmt.Sprintf" || full == "fmt.Sprint":
 		return &absint.Opaque{Why: "text"}, true
+	case strings.HasPrefix(full, "(*sync.Map)."):
+		// sync.Map as a sequential map (atomicity of the single operations is the library's; C20 decides their use)
+		m := t.syncMap(args[0])
+		key := func(v absint.Value) string { return absint.Show(v) }
+		switch cal.Name() {
+		case "Load":
+			if v, ok := m.v[key(args[1])]; ok {
+				return absint.Tuple{v, absint.Bool(true)}, true
+			}
+			return absint.Tuple{absint.Nil{}, absint.Bool(false)}, true
+		case "Store":
+			k := key(args[1])
+			if _, ok := m.v[k]; !ok {
+				m.keys = append(m.keys, k)
+			}
+			m.k[k], m.v[k] = args[1], args[2]
+			return nil, true
+		case "LoadOrStore":
+			k := key(args[1])
+			if v, ok := m.v[k]; ok {
+				return absint.Tuple{v, absint.Bool(true)}, true
+			}
+			m.keys = append(m.keys, k)
+			m.k[k], m.v[k] = args[1], args[2]
+			return absint.Tuple{args[2], absint.Bool(false)}, true
+		case "Delete":
+			delete(m.v, key(args[1]))
+			delete(m.k, key(args[1]))
+			return nil, true
+		case "Range":
+			for _, k := range append([]string(nil), m.keys...) {
+				v, ok := m.v[k]
+				if !ok {
+					continue
+				}
+				if r, _ := ip.CallValue(args[1], m.k[k], v).(absint.Bool); !bool(r) {
+					break
+				}
+			}
+			return nil, true
+		}
+		return nil, false
 	case full == "sort.Slice" || full == "sort.SliceStable":
 		// the standard sorts, modelled as a stable insertion sort under the interpreted index comparator
 		l, ok := args[0].(*absint.List)
@@ -152,7 +213,20 @@ func (t *tbl) TypeTest(ip *absint.Interp, v absint.Value, T types.Type) (bool, b
 		return t.typeTestC(ip, v, T)
 	}
 	if t.typeTest != nil {
-		return t.typeTest(v, T)
+		if ok, known := t.typeTest(v, T); known {
+			return ok, known
+		}
+	}
+	// literals carry their basic type
+	if b, isB := T.Underlying().(*types.Basic); isB {
+		switch v.(type) {
+		case absint.Str:
+			return b.Info()&types.IsString != 0, true
+		case absint.Int:
+			return b.Info()&types.IsInteger != 0, true
+		case absint.Bool:
+			return b.Info()&types.IsBoolean != 0, true
+		}
 	}
 	return false, false
 }
